@@ -124,7 +124,9 @@ type tsIndexImpl struct {
 
 func (tsIdx *tsIndexImpl) run(idx *MergeSetIndex) {
 	for i := 0; i < len(idx.queues); i++ {
+		idx.queueWorkers.Add(1)
 		go func(index int) {
+			defer idx.queueWorkers.Done()
 			for row := range idx.queues[index] {
 				row.Row.SeriesId, row.Err = idx.CreateIndexIfNotExistsByRow(row.Row)
 				row.Row.PrimaryId = row.Row.SeriesId
@@ -151,7 +153,9 @@ type CsIndexImpl struct {
 
 func (csIdx *CsIndexImpl) run(idx *MergeSetIndex) {
 	for i := 0; i < len(idx.queues); i++ {
+		idx.queueWorkers.Add(1)
 		go func(index int) {
+			defer idx.queueWorkers.Done()
 			for row := range idx.queues[index] {
 				row.Err = csIdx.CreateIndexIfNotExistsByRow(idx, row.Row)
 				row.Wg.Done()
@@ -160,7 +164,9 @@ func (csIdx *CsIndexImpl) run(idx *MergeSetIndex) {
 	}
 
 	for i := 0; i < len(idx.labelStoreQueues); i++ {
+		idx.queueWorkers.Add(1)
 		go func(index int) {
+			defer idx.queueWorkers.Done()
 			for col := range idx.labelStoreQueues[index] {
 				col.Err = csIdx.CreateIndexIfNotExistsByCol(idx, col)
 				col.Wg.Done()
@@ -289,6 +295,12 @@ type MergeSetIndex struct {
 	mu     sync.RWMutex
 	isOpen bool
 
+	// queueMu orders writers handing rows to the queues against Close closing them;
+	// queueWorkers counts the goroutines that drain the queues.
+	queueMu      sync.RWMutex
+	queuesClosed bool
+	queueWorkers sync.WaitGroup
+
 	indexBuilder *IndexBuilder
 	StorageIndex StorageIndex
 
@@ -361,7 +373,10 @@ func (idx *MergeSetIndex) Open() error {
 	idx.cache = newIndexCache(idx.config.TSIDCacheSize, idx.config.SKeyCacheSize, idx.config.TagCacheSize,
 		idx.config.TagFilterCostCacheSize, idx.path, syscontrol.IsIndexReadCachePersistent(), idx.config.CacheCompressEnable)
 
+	idx.queueMu.Lock()
 	idx.StorageIndex.initQueues(idx)
+	idx.queuesClosed = false
+	idx.queueMu.Unlock()
 	idx.run()
 	idx.isOpen = true
 
@@ -449,16 +464,36 @@ func (idx *MergeSetIndex) AddNewSeriesKey(key []byte) {
 	idx.bfMu[partId&bfMuMask].Unlock()
 }
 
+var errIndexClosed = errors.New("index is closed")
+
 func (idx *MergeSetIndex) WriteRow(row *indexRow) {
 	partId := meta.HashID(row.Row.IndexKey) & queueSizeMask
+	// a write can still hold this index while retention closes and deletes it: the
+	// row is refused instead of being sent on a closed channel
+	idx.queueMu.RLock()
+	if idx.queuesClosed {
+		idx.queueMu.RUnlock()
+		row.Err = errIndexClosed
+		row.Wg.Done()
+		return
+	}
 	idx.queues[partId] <- row
+	idx.queueMu.RUnlock()
 }
 
 func (idx *MergeSetIndex) WriteTagCols(tagCol *TagCol) {
 	key := append(tagCol.Mst, tagCol.Key...)
 	key = append(key, tagCol.Val...)
 	partId := meta.HashID(key) & queueSizeMask
+	idx.queueMu.RLock()
+	if idx.queuesClosed {
+		idx.queueMu.RUnlock()
+		tagCol.Err = errIndexClosed
+		tagCol.Wg.Done()
+		return
+	}
 	idx.labelStoreQueues[partId] <- tagCol
+	idx.queueMu.RUnlock()
 }
 
 func (idx *MergeSetIndex) run() {
@@ -1595,8 +1630,10 @@ func (idx *MergeSetIndex) Close() error {
 		return nil
 	}
 
-	idx.tb.MustClose()
-
+	// no row enters the queues any more, and the rows already queued are written
+	// before the table underneath them is closed
+	idx.queueMu.Lock()
+	idx.queuesClosed = true
 	for i := 0; i < len(idx.queues); i++ {
 		close(idx.queues[i])
 	}
@@ -1604,6 +1641,10 @@ func (idx *MergeSetIndex) Close() error {
 	for i := 0; i < len(idx.labelStoreQueues); i++ {
 		close(idx.labelStoreQueues[i])
 	}
+	idx.queueMu.Unlock()
+	idx.queueWorkers.Wait()
+
+	idx.tb.MustClose()
 
 	if err := idx.cache.close(); err != nil {
 		return err
